@@ -257,7 +257,25 @@ impl Parameter {
                 return false;
             }
         }
-        true
+        // The braces are only removed if they enclose the whole argument: the group
+        // opened by the first token must be closed by the last token and not before.
+        // For example the argument `{a}{b}` keeps its braces (TeX.2021.392-393).
+        let mut scope_depth = 0;
+        for (i, token) in list.iter().enumerate() {
+            match token.value() {
+                token::Value::BeginGroup(_) => {
+                    scope_depth += 1;
+                }
+                token::Value::EndGroup(_) => {
+                    scope_depth -= 1;
+                }
+                _ => (),
+            }
+            if scope_depth == 0 {
+                return i + 1 == list.len();
+            }
+        }
+        false
     }
 
     fn parse_undelimited_argument<S: TexlangState>(
